@@ -1,10 +1,13 @@
 (* Property C09 -- statements only; proofs live in Proofs/.  *)
-From Coq Require Import ZArith List Bool.
+From Coq Require Import ZArith List Bool String.
 From TV Require Import Base.Prelude Base.C09_Lib
   Gen.C09_Poly1305 Gen.C09_ChaCha Gen.C09_ChaChaPoly
   Spec.C09_Poly1305 Spec.C09_ChaCha Spec.C09_ChaChaPoly
-  Proofs.C09_Bits32 Proofs.C09_Poly1305 Proofs.C09_ChaCha Proofs.C09_ChaChaPoly.
+  Base.C09_Oracle Gen.C09_KDF Model.C09_KeyCalc Spec.C09_KDF Spec.C09_KeyCalc
+  Proofs.C09_Bits32 Proofs.C09_Poly1305 Proofs.C09_ChaCha Proofs.C09_ChaChaPoly Proofs.C09_KDF Proofs.C09_KeyCalc
+  Toy.C09_ToyOracle.
 Import ListNotations.
+Open Scope list_scope.
 Open Scope Z_scope.
 
 (* ---- (a) Poly1305 -------------------------------------------------------------- *)
@@ -97,3 +100,108 @@ Proof. exact aead_open_iff_seal_spec. Qed.
 Example chachapoly_hyps_satisfiable :
   key_ok (repeat 7 32) (repeat 9 12) /\ len_ok (repeat 1 100) /\ st_ok (repeat 5 16).
 Proof. exact hyps_example. Qed.
+
+(* ---- (d) key derivation ---------------------------------------------------------- *)
+(* FULL STATEMENT (RFC 5869 2.3): for every L <= 255*HashLen, HKDF_expand returns the RFC's OKM:
+     forall Orc alg prk info L okm, hkdf_expand_rfc Orc alg prk info L = Some okm ->
+                                    HKDF_expand Orc prk info L alg = Ok okm.
+   It is FALSE of the code as regenerated from tlslite/utils/cryptomath.py: *)
+Theorem hkdf_expand_eq_rfc_refuted :
+  exists Orc prk info okm,
+    hkdf_expand_rfc Orc "sha256" prk info 8160 = Some okm /\ HKDF_expand Orc prk info 8160 "sha256" = Err ValueError.
+Proof. exact hkdf_refuted_sha256_8160. Qed.
+
+(* ... in fact for every oracle, hash and input the whole last block of lengths fails *)
+Theorem hkdf_expand_last_block_refuted : forall Orc alg prk info L hl,
+  digest_size alg = Some hl -> 254 * hl < L <= 255 * hl ->
+  (exists okm, hkdf_expand_rfc Orc alg prk info L = Some okm) /\ HKDF_expand Orc prk info L alg = Err ValueError.
+Proof. exact hkdf_expand_refuted_all. Qed.
+
+(* the proved part: everything up to 254*HashLen (missing: 254*HashLen < L <= 255*HashLen) *)
+Theorem hkdf_expand_eq_rfc_partial : forall Orc alg prk info L hl okm,
+  digest_size alg = Some hl -> L <= 254 * hl ->
+  hkdf_expand_rfc Orc alg prk info L = Some okm -> HKDF_expand Orc prk info L alg = Ok okm.
+Proof. exact hkdf_expand_partial. Qed.
+
+(* HKDF-Expand-Label (RFC 8446 7.1 HkdfLabel layout) and Derive-Secret; same missing last block *)
+Theorem hkdf_expand_label_eq_rfc_partial : forall Orc alg hl secret label context length okm,
+  digest_size alg = Some hl -> length <= 254 * hl ->
+  hkdf_expand_label_rfc Orc alg secret label context length = Some okm ->
+  HKDF_expand_label Orc secret label context length alg = Ok okm.
+Proof. exact hkdf_expand_label_partial. Qed.
+
+Theorem hkdf_expand_label_eq_rfc_refuted : forall Orc alg hl secret label context length,
+  digest_size alg = Some hl -> 254 * hl < length <= 255 * hl -> length <= 65535 ->
+  zlen label + 6 <= 255 -> zlen context <= 255 ->
+  (exists okm, hkdf_expand_label_rfc Orc alg secret label context length = Some okm) /\
+  HKDF_expand_label Orc secret label context length alg = Err ValueError.
+Proof. exact hkdf_expand_label_refuted_all. Qed.
+
+Theorem derive_secret_eq_rfc : forall Orc alg hl secret label messages okm, hash_ok Orc ->
+  digest_size alg = Some hl ->
+  derive_secret_rfc Orc alg secret label messages = Some okm ->
+  derive_secret Orc secret label (Some messages) alg = Ok okm /\
+  (messages = [] -> derive_secret Orc secret label None alg = Ok okm).
+Proof. exact derive_secret_partial. Qed.
+
+Theorem tls13_traffic_keys_eq_rfc : forall Orc (sha384 : bool) secret keyLen k iv,
+  keyLen <= 254 * 32 ->
+  traffic_keys_rfc Orc (if sha384 then "sha384" else "sha256")%string secret keyLen = Some (k, iv) ->
+  tls13_traffic_keys Orc secret keyLen sha384 = Ok (k, iv).
+Proof. exact tls13_traffic_keys_ok. Qed.
+
+(* P_hash (RFC 5246 5) for every output length, any hash whose HMAC has the declared size *)
+Theorem p_hash_eq_rfc : forall Orc alg secret seed ds len,
+  digest_size alg = Some ds -> (forall msg, zlen (o_hmac Orc alg secret msg) = ds) -> 0 <= len ->
+  P_hash Orc alg secret seed len = Ok (p_hash_rfc Orc alg ds secret seed len).
+Proof. exact P_hash_ok. Qed.
+
+(* TLS 1.0/1.1 PRF: halves of the secret share the middle byte for odd lengths; MD5 xor SHA-1 *)
+Theorem prf_tls10_split : forall Orc, oracle_ok Orc -> forall secret label seed len, 0 <= len ->
+  PRF Orc secret label seed len = Ok (prf10_rfc Orc secret label seed len).
+Proof. exact PRF_ok. Qed.
+
+Theorem prf_tls12_eq_rfc : forall Orc, oracle_ok Orc -> forall secret label seed len, 0 <= len ->
+  PRF_1_2 Orc secret label seed len = Ok (prf12_rfc Orc "sha256" 32 secret label seed len) /\
+  PRF_1_2_SHA384 Orc secret label seed len = Ok (prf12_rfc Orc "sha384" 48 secret label seed len).
+Proof. exact PRF_12_both. Qed.
+
+Theorem prf_ssl_eq_spec : forall Orc secret seed n, hash_ok Orc -> 0 <= n <= 416 ->
+  PRF_SSL Orc secret seed n = Ok (prf_ssl_rfc Orc secret seed n).
+Proof. exact PRF_SSL_ok. Qed.
+
+(* calc_key: total on the table (4 versions x 2 PRF hashes x 5 labels, EMS undefined for SSLv3) and equal to
+   the RFC 6101 / 2246 / 4346 / 5246 / 7627 definitions; everything else is refused *)
+Theorem calc_key_dispatch : forall Orc version sha384 p secret messages cr sr n,
+  oracle_ok Orc -> hash_ok Orc ->
+  In version [(3, 0); (3, 1); (3, 2); (3, 3)] -> 0 <= n ->
+  (version = (3, 0) -> p <> ExtMasterSecret /\ n <= 416) ->
+  calc_key Orc version secret sha384 (purpose_label p) (Some messages) (Some cr) (Some sr) (Some n)
+  = Ok (calc_key_rfc Orc version sha384 p secret messages cr sr n).
+Proof. exact calc_key_dispatch_all. Qed.
+
+Theorem calc_key_refuses_rest : forall Orc version secret sha384 label hh cr sr n,
+  (~ In version [(3, 0); (3, 1); (3, 2); (3, 3)] \/
+   (forall p, label <> purpose_label p) \/
+   (version = (3, 0) /\ label = purpose_label ExtMasterSecret)) ->
+  calc_key Orc version secret sha384 label hh cr sr n = Err AssertionError.
+Proof. exact calc_key_rejects. Qed.
+
+(* the six slices partition the key block in RFC 5246 6.3 order and swap with the role *)
+Theorem key_block_slicing : forall kb m k i, 0 <= m -> 0 <= k -> 0 <= i -> 2 * m + 2 * k + 2 * i <= zlen kb ->
+  exists s, slice_key_block kb m k i = Ok s /\
+    [ks_client_mac s; ks_server_mac s; ks_client_key s; ks_server_key s; ks_client_iv s; ks_server_iv s]
+      = key_block_partition kb (Z.to_nat m) (Z.to_nat k) (Z.to_nat i) /\
+    ks_client_mac s ++ ks_server_mac s ++ ks_client_key s ++ ks_server_key s ++ ks_client_iv s ++ ks_server_iv s
+      = firstn (Z.to_nat (2 * m + 2 * k + 2 * i)) kb /\
+    zlen (ks_client_mac s) = m /\ zlen (ks_server_mac s) = m /\ zlen (ks_client_key s) = k /\
+    zlen (ks_server_key s) = k /\ zlen (ks_client_iv s) = i /\ zlen (ks_server_iv s) = i.
+Proof. exact slice_key_block_ok. Qed.
+
+Theorem key_block_role_swap : forall s,
+  pending_states true s = ((ks_client_mac s, ks_client_key s, ks_client_iv s), (ks_server_mac s, ks_server_key s, ks_server_iv s)) /\
+  pending_states false s = (snd (pending_states true s), fst (pending_states true s)).
+Proof. exact pending_states_swap. Qed.
+
+Example kdf_oracle_hyps_satisfiable : oracle_ok toy_oracles /\ hash_ok toy_oracles.
+Proof. exact toy_oracles_ok. Qed.
